@@ -43,7 +43,7 @@ fn abs_addr(s: &str, run: &Run) -> (i64, i64) {
 
 pub fn one(out: &mut Out, cond: &str, connected: bool, dialing: bool, opts: &[i64], beh: &[i64], extend: bool, peer: i64) {
     let cfg = json!({"concurrency": 8});
-    let mut run = Run::new(&cfg);
+    let mut run: Run = Run::new(&cfg);
     if peer >= 0 {
         if connected {
             run.exec(&json!({"c": "dial", "peer": peer, "cond": "Always", "addrs": [7]}));
